@@ -27,7 +27,7 @@ PROPS = {
         "assumptions": ["all SubRule methods are invoked on the same SubRule object (cells named by field)"],
     },
     "C05": {
-        "rules": [("SUP-1", sup.sup1), ("SUP-2", sup.sup2), ("SUP-4", sup.sup4)],
+        "rules": [("SUP-1", sup.sup1), ("SUP-2", sup.sup2), ("SUP-4", sup.sup4), ("SUP-5", sup.sup5)],
         "explanation": "Decides the table clauses of C05 by decision-table extraction: the matchers and setters of stress / sec.stress / long / overlong are small decision "
                        "trees over two finite domains (stress in {unstressed, primary, secondary}; length in {short, long, overlong}); the trees are read off the HIR (comparison "
                        "operators and constants, `while seg_len < N` / `> N` clamps, constants assigned to `.stress`, the true/false and Positive/Negative arms) and tabulated. "
@@ -36,8 +36,8 @@ PROPS = {
                        "only; a bound alpha behaves as the binary arm of its value, an inverse alpha as the other, an unbound alpha captures membership in the positive set "
                        "(inverted for -α). SUP-2: for all 9 modifier combinations x 3 states, the state after Syllable::apply_syll_mods / apply_supras (and Word::alias_apply_stress) "
                        "is matched by that same combination, single modifiers set the documented value ([+long] short->long, [+stress]->primary, ...), [-stress,+sec.stress] and "
-                       "[-long,+overlong] are errors, the alias setters agree with the rule setters (alias_apply_length = the rule table on a short segment). SUP-4 (MIR dominance): every return of SubRule::match_supr_mod_seg / Word::alias_match_supr_mod_seg that can accept is dominated by the calls of the stress matcher and the length matcher and by the test of `mods.tone` (the matrix is a conjunction of its tiers).",
-        "does_not_decide": "that the run length the tables are applied to is the true length of the segment at the cursor (get_seg_length_at, the insert/remove positions), tone matching/setting, "
+                       "[-long,+overlong] are errors, the alias setters agree with the rule setters (alias_apply_length = the rule table on a short segment). SUP-4 (MIR dominance): every return of SubRule::match_supr_mod_seg / Word::alias_match_supr_mod_seg that can accept is dominated by the calls of the stress matcher and the length matcher and by the test of `mods.tone` (the matrix is a conjunction of its tiers). SUP-5: match_tone is `*tone == syll.tone`, apply_syll_mods writes `.tone` exactly once, from the Some(t) of mods.tone, and the alias matcher rejects iff `*t != syll.tone` ([tone:n] matches and sets the whole tone).",
+        "does_not_decide": "that the run length the tables are applied to is the true length of the segment at the cursor (get_seg_length_at, the insert/remove positions), tone 0 meaning none in the text forms, "
                            "the cursor after a lengthened segment, that the other suprasegmentals are left alone (C14 FLW-4 decides that write-effect clause).",
         "assumptions": ["length is abstracted to the manual's three values; `while seg_len < N { insert; seg_len += 1 }` is read as max(len, N), `> N` with remove as min(len, N)",
                         "ModKind::as_bool returns the sign of a binary modifier and the bound value of an alpha (PUR/POL rules)"],
@@ -94,8 +94,8 @@ PROPS = {
         "assumptions": ["borrow checker: a function holding only &Word of a Freeze type cannot mutate it"],
     },
     "C15": {
-        "rules": [("FLW-2", flw.flw2), ("SHR-2", tab2.shr2)],
-        "explanation": "SHR-2: in AliasParser::get_deromaniser / get_romaniser every Transformation takes its input from the input term list and its output from the output "
+        "rules": [("FLW-2", flw.flw2), ("SHR-2", tab2.shr2), ("RT-1", tab2.rt1)],
+        "explanation": "RT-1 (sibling clause): Word::render, used when romanisers are given, opens syllables with exactly the marks of the default renderer render_normal ('each printed word is the default rendering with the matched segments replaced'). SHR-2: in AliasParser::get_deromaniser / get_romaniser every Transformation takes its input from the input term list and its output from the output "
                        "term list, element i selected under that list's own `len() == 1` test (or through a cycled iterator), so `a, b > x` pairs (a,x),(b,x). "
                        "FLW-2 decides the noninterference clause of C15 exactly as an information-flow statement: Transformation vectors are coloured by the AliasKind constant "
                        "used to parse them; deromanisers reach only Word::new (word parsing), romanisers (or the empty list) only Word::render, at every call site, "
@@ -147,6 +147,19 @@ PROPS = {
         "does_not_decide": "nothing of C01 is value-level; residue = trusted base (deny table complete for the std/dependency surface actually reached — the reached external callee list is written to evidence; serde_json / lazy_static internals deterministic; allocation failure and stack overflow ignored).",
         "assumptions": ["deny table covers the nondeterminism channels of the reached std surface (list in evidence.analysed)",
                         "Trie::insert is order-insensitive (children kept sorted; confirmed by reading)"],
+    },
+    "C09": {
+        "controls": ["BIT"],
+        "rules": [("RT-1", tab2.rt1), ("TAB-6", tab2.tab6), ("BIT-2", bit.bit2), ("FLW-7", flw2.flw7)],
+        "explanation": "Decides three necessary conditions of the text round trip, none of them the round trip itself. RT-1 writer/reader agreement of the suprasegmental notation: "
+                       "Word::render_normal writes primary stress as the mark Word::setup reads as Primary, secondary likewise, opens every non-initial unstressed syllable with '.', "
+                       "writes a segment equal to its predecessor as 'ː' (read back as a repetition of the last segment) and a non-zero tone as its decimal digits (parsed back into "
+                       ".tone). TAB-6: every mark render_normal can push is tested by Word::setup; the americanist replacement chain of render_normal is the exact inverse of Word::new's, "
+                       "in an order where no replacement destroys a later source. BIT-2 / FLW-7: a place is kept in canonical form by every writer (for all values), so that the derived "
+                       "`==` on the re-parsed segment compares equal representations.",
+        "does_not_decide": "the renderer's base+diacritic search against the parser's left-to-right diacritic application (per-bundle behaviour, ~400k values), the cursor arithmetic of Word::setup "
+                           "(e.g. what follows a tone number), U+FFFD cases.",
+        "assumptions": ["cardinals.json / diacritics.json contents (checked for canonical places by FLW-7)"],
     },
     "C10": {
         "controls": ["PUR-3"],
